@@ -73,6 +73,14 @@ def check_case(ctx, case):
         back = np.asarray(r.deltas[name]) + r.r_values[name]
         if len(back) != n or np.max(np.abs(back - x)) > 1e-11 * scale or not close(float(r.value), float(mean), rtol=1e-13, scale=scale):
             probs.append(('violation', 'jack-import', 'samples not restored (max dev %r)' % (float(np.max(np.abs(back - x))) if len(back) == n else 'length')))
+        # a configuration list of another length than the samples cannot describe them: refused
+        for bad in ([list(il)[:-1]], [list(il) + [int(il[-1]) + 1]]):
+            try:
+                rb = pe.import_jackknife(j, name, idl=bad)
+                if len(rb.deltas[name]) != len(list(rb.idl[name])):
+                    probs.append(('violation', 'jack-import-idl-length', 'accepted %d configurations for %d samples: N=%d with %d fluctuations' % (len(bad[0]), n, rb.N, len(rb.deltas[name]))))
+            except Exception:
+                pass
         # the library's own users of the transform (jackknife-based matrix products) return observables on the
         # configuration list of their operands: export, operate on the samples, import
         if n >= 8 and n % 3 == 0:
